@@ -268,6 +268,17 @@ def step (s : DSt) (ws : List String) : DSt × String :=
       | some (m', ops, kind) => ({ s.push ops with mem := some m' }, s!"ok kind={kind} fs={traceTok ops} st={stateTok m'}")
       | none => (s, "bad-op")
     | _, _, _ => (s, "bad-op")
+  | ["bgclose", name, size] =>
+    -- Family.Compact() (background start of a compaction) directly followed by CloseStore: close waits for the
+    -- started job (Props.C01.jobs_complete_before_close), so the trace is the job's then the close's
+    match s.mem, name.toNat?, size.toNat? with
+    | some m, some n, some sz =>
+      match compact m s.disk n sz with
+      | some (m', ops, kind) =>
+        let ops2 := closeStore m'
+        ({ s.push (ops ++ ops2) with mem := none }, s!"ok kind={kind} fs={traceTok (ops ++ ops2)}")
+      | none => (s, "bad-op")
+    | _, _, _ => (s, "bad-op")
   | "edit" :: name :: toks =>
     match s.mem, name.toNat?, toks.mapM parseLog with
     | some m, some n, some logs =>
